@@ -31,6 +31,10 @@ class DlyErr(Exception):
     """on_error value of a per-element delay / throttle / timeout observable"""
 
 
+class FnErr(Exception):
+    """raised by a scenario's mapper function (spec kind X)"""
+
+
 class Hang(BaseException):
     """the watchdog fired: the real run did not finish"""
 
@@ -259,6 +263,8 @@ def build_operator(scn, s, clk: Clock, V, cfg, made):
         def mapper(x):
             for pos, v in enumerate(V["src"]):
                 if same(v, x) and pos < len(table):
+                    if table[pos]["k"] == "X":
+                        raise FnErr("mapper failed")
                     sc = spec_observable(s, clk, table[pos], cfg.get("specmode", "cold"))
                     made.setdefault(tag, []).append((pos + 1, sc))
                     return sc.obs
@@ -337,6 +343,9 @@ def build_operator(scn, s, clk: Clock, V, cfg, made):
 def src_modes(scn) -> List[str]:
     if scn["op"] in HOT_OPS:
         return ["hot", "hot_chain", "hot_pre"] if scn["hot"] else ["cold", "cold_chain"]
+    if (scn["src"] and scn["src"][0] == 0) or (scn["term"] != "U" and scn["tT"] == 0):
+        # a notification at the subscription instant itself: only a cold source has one for this subscriber
+        return ["cold", "cold_chain"]
     return ["hot", "cold", "hot_chain", "hot_pre", "cold_chain"]
 
 
@@ -443,8 +452,10 @@ def _err_ok(got, e, v) -> bool:
         return v is V["aux_err"]
     if name == "dly":
         return isinstance(v, DlyErr)
+    if name == "fn":
+        return isinstance(v, FnErr)
     if name == "to":
-        return isinstance(v, Exception) and not isinstance(v, (SrcErr, AuxErr, DlyErr, AssertionError))
+        return isinstance(v, Exception) and not isinstance(v, (SrcErr, AuxErr, DlyErr, FnErr, AssertionError))
     return False
 
 
